@@ -255,6 +255,101 @@ def batch_size_check(kind):
     return FnObligation(f"C07/_check_batch_size/ensures.raises_iff_mismatch[{kind}]", run, [SM + "_check_batch_size"])
 
 
+def get_batch_ob(sharding, param, obs, obs_cls="DataGeneratorObservations"):
+    """
+    both functions returned by _get_get_batch: the batch is the main generator's batch with the parameter / observation
+    batches appended, and each returned generator is exactly the generator its own get_batch returned (all fields) — the
+    next draw continues every generator's own sequence.  Generators are records with fresh symbolic fields; their
+    get_batch is replaced by its contract (C09 / C15): (a new generator, a batch).
+    """
+    def run(seed):
+        import time, z3
+        from vf import pyvc
+        from vf.pyvc import Executor, Rec
+        t0 = time.time()
+        ex = Executor(["/repo/jinns/solver/_solve.py", "/repo/jinns/data/_DataGenerators.py", "/repo/jinns/data/_Batchs.py"])
+        fld = {"DataGeneratorODE": ["key", "times", "curr_time_idx", "p_times"],
+               "DataGeneratorParameter": ["keys", "param_n_samples", "curr_param_idx"],
+               obs_cls: ["key", "indices", "curr_idx", "observed_pinn_in", "observed_values", "observed_eq_params"]}
+        def gen(cls, gen_no):
+            return Rec(cls, {f: z3.Int(f"{cls}.{f}@{gen_no}") for f in fld[cls]})
+        old = {c: gen(c, 0) for c in fld}
+        new = {c: gen(c, 1) for c in fld}
+        tb, pbd, obd = z3.Int("temporal_batch"), z3.Int("param_batch"), z3.Int("obs_batch")
+        ex.contracts["DataGeneratorODE.get_batch"] = lambda ex_, fv, a, k, pc: [((new["DataGeneratorODE"], Rec("ODEBatch", dict(
+            temporal_batch=tb, param_batch_dict=None, obs_batch_dict=None))), pc)]
+        ex.contracts["DataGeneratorParameter.get_batch"] = lambda ex_, fv, a, k, pc: [((new["DataGeneratorParameter"], pbd), pc)]
+        ex.contracts[obs_cls + ".get_batch"] = lambda ex_, fv, a, k, pc: [((new[obs_cls], obd), pc)]
+        outs = ex.call_function("_get_get_batch", ["a-sharding" if sharding else None])
+        assert len(outs) == 1 and outs[0].kind == "return"
+        clo = outs[0].value
+        want = "get_batch_sharding" if sharding else "get_batch"
+        if getattr(clo.node, "name", None) != want:
+            return dict(status="violated", failure="value", backend="pyvc", replay=dict(native_disagrees=False),
+                        detail=f"_get_get_batch({'sharding' if sharding else None}) returns {getattr(clo.node, 'name', clo)}, expected {want}")
+        res = ex.apply(clo, [old["DataGeneratorODE"], old["DataGeneratorParameter"] if param else None,
+                             old[obs_cls] if obs else None], {}, [])
+        bad = []
+        for (val, pc) in res:
+            batch, d, pd_, od = val
+            exp_batch = dict(temporal_batch=tb, param_batch_dict=pbd if param else None, obs_batch_dict=obd if obs else None)
+            for k_, v in exp_batch.items():
+                got = batch.fields.get(k_)
+                if not (got is v or (pyvc.is_z3(got) and pyvc.is_z3(v) and got.eq(v))):
+                    bad.append(f"batch.{k_} = {got}, expected {v}")
+            for got, cls, on in ((d, "DataGeneratorODE", True), (pd_, "DataGeneratorParameter", param), (od, obs_cls, obs)):
+                if not on:
+                    if got is not None:
+                        bad.append(f"a generator appears from nowhere: {got}")
+                    continue
+                if not isinstance(got, Rec) or got.cls != cls:
+                    bad.append(f"returned {cls} is {got}")
+                    continue
+                for f in fld[cls]:
+                    g, w = got.fields.get(f), new[cls].fields[f]
+                    if not (g is w or (pyvc.is_z3(g) and g.eq(w))):
+                        bad.append(f"returned {cls}.{f} is {g}: not the field of the generator that its get_batch returned ({w})")
+        if bad:
+            return dict(status="violated", failure="value", backend="pyvc", detail=bad[0] + (f" (+{len(bad) - 1} more)" if len(bad) > 1 else ""),
+                        replay=native_get_batch_witness(sharding, seed))
+        return dict(status="discharged", backend="pyvc", solver_s=time.time() - t0,
+                    sample=f"{len(res)} path(s); generators threaded through unchanged, batches appended")
+    return FnObligation(f"C07/_get_get_batch.{'get_batch_sharding' if sharding else 'get_batch'}/ensures.generators_threaded"
+                        f"[param_gen={int(param)},obs_gen={int(obs)}{',multi' if obs_cls != 'DataGeneratorObservations' else ''}]", run,
+                        [SM + "_get_get_batch." + ("get_batch_sharding" if sharding else "get_batch"),
+                         "jinns.data._DataGenerators:append_param_batch", "jinns.data._DataGenerators:append_obs_batch"])
+
+
+def native_get_batch_witness(sharding, seed):
+    """replay on the real code: draw batches through the real function with real generators and compare with the
+    generators' own sequences"""
+    import numpy as np
+    try:
+        import jinns
+        from jinns.solver._solve import _get_get_batch
+        from jinns.data import DataGeneratorODE, DataGeneratorObservations
+        key = jax.random.PRNGKey(seed)
+        k1, k2 = jax.random.split(key)
+        data = DataGeneratorODE(key=k1, nt=8, tmin=0.0, tmax=1.0, temporal_batch_size=4)
+        n = 12
+        obs = DataGeneratorObservations(key=k2, obs_batch_size=4, observed_pinn_in=jnp.arange(n, dtype=float)[:, None],
+                                        observed_values=jnp.arange(n, dtype=float)[:, None] * 10.0)
+        sh = jax.sharding.SingleDeviceSharding(jax.devices()[0]) if sharding else None
+        gb = _get_get_batch(sh)
+        ref = obs
+        d, o = data, obs
+        for it in range(12):
+            batch, d, _, o = gb(d, None, o)
+            ref, rb = ref.get_batch()
+            if not np.array_equal(np.asarray(batch.obs_batch_dict["pinn_in"]), np.asarray(rb["pinn_in"])):
+                return dict(native_disagrees=True, inputs=dict(n_obs=n, obs_batch_size=4, draw=it, seed=seed),
+                            native=np.asarray(batch.obs_batch_dict["pinn_in"]).ravel().tolist(),
+                            expected=np.asarray(rb["pinn_in"]).ravel().tolist())
+        return dict(native_disagrees=False, native="12 draws agree with the observation generator's own sequence")
+    except Exception as e:
+        return dict(native_disagrees=False, native="witness search failed: " + repr(e)[:200])
+
+
 def configs(tier):
     base = dict(opt="opaque", param=False, obs=False, tracked="none", ost=False)
     cs = [base, dict(base, opt="sgd"), dict(base, param=True, obs=True, tracked="both"), dict(base, tracked="a", ost=True),
@@ -275,4 +370,8 @@ def obligations(tier):
             obs.append(guard(configs(tier)[0], n_iter, i))
     for kind in ("ODE", "statio", "nonstatio"):
         obs.append(batch_size_check(kind))
+    for sharding in (False, True):
+        for (p_, o_) in ((False, False), (True, False), (False, True), (True, True)):
+            obs.append(get_batch_ob(sharding, p_, o_))
+        obs.append(get_batch_ob(sharding, True, True, obs_cls="DataGeneratorObservationsMultiPINNs"))
     return obs
